@@ -586,7 +586,7 @@ def check_large(case, ctx):
     from itertools import combinations
     from hypergraphx import Hypergraph, TemporalHypergraph
     m = case["n_edges"]
-    pairs = list(combinations(range(60), 2))[:m]          # 1770 pairs available
+    pairs = list(combinations(range(70), 2))[:m]          # 2415 pairs available
     weighted = case["weighted"] or case["which"] == "weight"
 
     def build(edit):
